@@ -33,8 +33,8 @@ ASSUMPTIONS = ['PBKDF2 iteration counts above 4096 are refused by the fuzz harne
 STALL_S = 900
 SHIM_T13 = True
 
-TARGETS = {1: 'asn1', 2: 'cert', 3: 'exts', 4: 'crl-req', 5: 'cms', 6: 'keys', 7: 'sig-ct', 8: 'text', 9: 'tls'}
-MAXLEN = {1: 400, 2: 4096, 3: 2048, 4: 4096, 5: 8192, 6: 2048, 7: 1024, 8: 6000, 9: 18437}
+TARGETS = {1: 'asn1', 2: 'cert', 3: 'exts', 4: 'crl-req', 5: 'cms', 6: 'keys', 7: 'sig-ct', 8: 'text', 9: 'tls', 10: 'sm9'}
+MAXLEN = {1: 400, 2: 4096, 3: 2048, 4: 4096, 5: 8192, 6: 2048, 7: 1024, 8: 6000, 9: 18437, 10: 600}
 
 
 def plan(tier, seed):
@@ -163,6 +163,40 @@ def u_seeds(ctx, u):
     put(7, R.ct_der(*R.encrypt_with_k(R.pub(fixed), b'plaintext', 777)))
     put(7, R.pt_uncompressed(R.pub(5)))
     put(7, R.pt_compressed(R.pub(7)))
+    # 10 SM9: a valid signature of "message" by Alice and a valid ciphertext for Bob under the fixed master secrets of the harness
+    import struct
+    KS = (0x0123456789abcdef, 0x1122334455667788, 0x99aabbccddeeff00, 0x0000130e78459d78)
+    KE = (0xfedcba9876543210, 0x8877665544332211, 0x00ffeeddccbbaa99, 0x00002e5c1a3f9b0c)
+    smk = ctx.buf(L['sizeof_SM9_SIGN_MASTER_KEY'], fill=0)
+    smk.write(struct.pack('<4Q', *KS), L['off_SM9_SIGN_MASTER_KEY_ks'])
+    lib.sm9_z256_twist_point_mul_generator(smk.ptr + L['off_SM9_SIGN_MASTER_KEY_Ppubs'], smk.ptr + L['off_SM9_SIGN_MASTER_KEY_ks'])
+    emk = ctx.buf(L['sizeof_SM9_ENC_MASTER_KEY'], fill=0)
+    emk.write(struct.pack('<4Q', *KE), L['off_SM9_ENC_MASTER_KEY_ke'])
+    lib.sm9_z256_point_mul_generator(emk.ptr + L['off_SM9_ENC_MASTER_KEY_Ppube'], emk.ptr + L['off_SM9_ENC_MASTER_KEY_ke'])
+    sk = ctx.buf(L['sizeof_SM9_SIGN_KEY'], fill=0)
+    if lib.sm9_sign_master_key_extract_key(smk, b'Alice', 5, sk) == 1:
+        sc = ctx.buf(L['sizeof_SM9_SIGN_CTX'], fill=0)
+        sg = ctx.buf(256)
+        sl = ctypes.c_size_t(0)
+        lib.sm9_sign_init(sc)
+        lib.sm9_sign_update(sc, b'message', 7)
+        if lib.sm9_sign_finish(sc, sk, sg, ctypes.byref(sl)) == 1:
+            put(10, sg.raw(sl.value))
+            vc = ctx.buf(L['sizeof_SM9_SIGN_CTX'], fill=0)
+            lib.sm9_verify_init(vc)
+            lib.sm9_verify_update(vc, b'message', 7)
+            sig_in = ctx.inbuf(sg.raw(sl.value))
+            assert lib.sm9_verify_finish(vc, sig_in, sl.value, smk, b'Alice', 5) == 1, 'SM9 seed signature does not verify'
+    ctb = ctx.buf(512)
+    cl = ctypes.c_size_t(0)
+    if lib.sm9_encrypt(emk, b'Bob', 3, b'sm9 seed plaintext', 18, ctb, ctypes.byref(cl)) == 1:
+        put(10, ctb.raw(cl.value))
+    pt = ctx.buf(65)
+    lib.sm9_z256_point_to_uncompressed_octets(emk.ptr + L['off_SM9_ENC_MASTER_KEY_Ppube'], pt)
+    put(10, pt.raw())
+    tp = ctx.buf(129)
+    lib.sm9_z256_twist_point_to_uncompressed_octets(smk.ptr + L['off_SM9_SIGN_MASTER_KEY_Ppubs'], tp)
+    put(10, tp.raw())
     # 8 text: 2-byte capacity prefix + text
     for cap, name, der in ((4000, 'CERTIFICATE', leaf), (100, 'CERTIFICATE', leaf), (2000, 'PUBLIC KEY', c12.spki_der(*R.pub(priv)))):
         put(8, bytes([cap >> 4, cap & 15]) + X.pem(name, der))
@@ -508,8 +542,10 @@ def main(run):
                '-max_len=%d' % MAXLEN[t], '-close_fd_mask=3', '-artifact_prefix=%s/' % adir, '-print_final_stats=1',
                '-len_control=50', cdir, sdir]
         return subprocess.Popen(cmd, env=env, stdout=log, stderr=subprocess.STDOUT, cwd=run.workdir), log
+    # a pairing costs milliseconds under ASan: the SM9 target gets a tenth of the executions
+    budget = {t: (runs // 10 if TARGETS[t] == 'sm9' else runs) for t in TARGETS}
     for t in TARGETS:
-        procs[t] = start(t, runs, 0) + (0, runs)
+        procs[t] = start(t, budget[t], 0) + (0, budget[t])
     stats = {}
     pending = dict(procs)
     deadline = time.time() + (900 if q else 7200)
@@ -559,8 +595,8 @@ def main(run):
                     run.violation('C06:%s' % key, {'target': TARGETS[t], 'input_hex': data[:4096].hex(), 'input_len': len(data),
                                                   'sanitizer': text[-9000:], 'unit': {'kind': 'fuzz', 'target': t}})
                 done = st.get('number_of_executed_units', 0)
-                if attempt < 3 and done < runs and time.time() < deadline:
-                    pending[t] = start(t, runs - done, attempt + 1) + (attempt + 1, runs - done)
+                if attempt < 3 and done < budget[t] and time.time() < deadline:
+                    pending[t] = start(t, budget[t] - done, attempt + 1) + (attempt + 1, budget[t] - done)
     total_exec = 0
     for t, st in sorted(stats.items()):
         total_exec += st.get('number_of_executed_units', 0)
@@ -569,7 +605,7 @@ def main(run):
             run.add_distinct(('corpus', t, i))
     run.evaluations += total_exec
     run.extra['fuzz'] = {TARGETS[t]: st for t, st in stats.items()}
-    run.sample({'kind': 'fuzz', 'runs_per_target': runs, 'stats': {TARGETS[t]: st for t, st in list(stats.items())[:4]}})
+    run.sample({'kind': 'fuzz', 'runs_per_target': runs, 'runs_sm9_target': runs // 10, 'stats': {TARGETS[t]: st for t, st in list(stats.items())[:4]}})
     # ---- prong 2: MemorySanitizer replay of every corpus ---------------------------------
     try:
         mex = {t: _compile('msan', 'clang-14', MSAN_SAN, t, ['-DVF_DRIVER'], 'msan') for t in TARGETS}
